@@ -15,15 +15,15 @@ namespace Sx
 
 /-- split a line into tokens: parentheses and maximal runs of other non-space characters -/
 def tokenize (s : String) : List String :=
+  let flush := fun (acc : List String) (cur : List Char) =>
+    if cur.isEmpty then acc else String.ofList cur.reverse :: acc
   let step := fun (st : List String × List Char) (c : Char) =>
-    let (acc, cur) := st
-    let flush := if cur.isEmpty then acc else String.ofList cur.reverse :: acc
-    if c == '(' then ("(" :: flush, [])
-    else if c == ')' then (")" :: flush, [])
-    else if c == ' ' || c == '\t' then (flush, [])
-    else (acc, c :: cur)
+    if c == '(' then ("(" :: flush st.1 st.2, [])
+    else if c == ')' then (")" :: flush st.1 st.2, [])
+    else if c == ' ' || c == '\t' then (flush st.1 st.2, [])
+    else (st.1, c :: st.2)
   let (acc, cur) := s.toList.foldl step ([], [])
-  (if cur.isEmpty then acc else String.ofList cur.reverse :: acc).reverse
+  (flush acc cur).reverse
 
 /-- parse with an explicit stack of open lists (innermost first, elements reversed) -/
 def parseToks : List String → List (List Sx) → Option Sx
